@@ -3,6 +3,8 @@ C03 — property theorems about `labelModel`, the executable model of `mahotas.l
 (the driver runs `labelModel Mode.constant`; helper lemmas live in `Proofs/C03*.lean`).
 -/
 import Mahotas.Proofs.C03Label
+import Mahotas.Proofs.C03Spec
+import Mahotas.Proofs.C03Iter
 namespace Mahotas.C03
 open Mahotas Relation
 
@@ -130,6 +132,139 @@ theorem C03_pinned_clamp_defect :
     specLabels [1, 2] [1, 1] [3, 3] #[1, 0, 0, 0, 0, 0, 0, 0, 0] = ([1, 2], 2) := by
   decide
 
+/-- the edges of the repaired scan are the `Linked` relation of the statement -/
+theorem C03_edge_eq_linked (shape : List Nat) (data : List Int) (bshape : List Nat) (bc : Array Int)
+    (hnd : bshape.length = shape.length) :
+    Edge .constant shape (offsets bshape bc) data = Linked shape data (offsets bshape bc) := by
+  have hk : ∀ k ∈ offsets bshape bc, k.length = shape.length := by
+    intro k hk; rw [offsets_length bshape bc k hk, hnd]
+  funext x y
+  apply propext
+  unfold Edge Linked
+  rw [mem_neighbours_constant shape (offsets bshape bc) x y hk]
+
+/-- **C03 oracle soundness.** `specLabels` — the executable oracle the harness compares the real `label` with,
+an implementation written independently of union–find (neighbour-minimum relaxation sweeps to a fixpoint, then
+counting roots) — *is* the labelling the statement describes, for every rank, shape, image that fills its shape
+and element of the image's rank: one label per pixel; 0 exactly on zero pixels; two non-zero pixels carry the same
+label exactly when a chain of non-zero pixels inside the image links them, consecutive members differing by an
+offset of the element or its reflection; labels are numbered `1..n` in order of first appearance in C scan order
+(`Consec 1`, every label in `[0, n]`, every `k ∈ 1..n` occurs, every smaller positive label occurs earlier) and
+the returned count is `n`. The proof shows that the relaxation ends (within the fuel `2·N + 2` the oracle passes:
+each full sweep makes at least one more pixel correct) in the state where every non-zero pixel holds the least
+flat index of its component. -/
+theorem C03_specLabels_sound (shape : List Nat) (data : List Int) (bshape : List Nat) (bc : Array Int)
+    (hnd : bshape.length = shape.length) (hlen : data.length = shapeSize shape) :
+    let r := specLabels shape data bshape bc
+    r.1.length = data.length ∧
+    (∀ i, i < data.length → (r.1.getD i 0 = 0 ↔ data.getD i 0 = 0)) ∧
+    (∀ i j, Fg data i → Fg data j →
+      (r.1.getD i 0 = r.1.getD j 0 ↔ ReflTransGen (SymmGen (Linked shape data (offsets bshape bc))) i j)) ∧
+    Consec 1 r.1 ∧ (∀ l ∈ r.1, 0 ≤ l ∧ l ≤ r.2) ∧ (∀ k, 1 ≤ k → k ≤ r.2 → k ∈ r.1) ∧
+    (∀ (i : Nat) (l : Int), r.1[i]? = some l → ∀ k, 1 ≤ k → k < l → ∃ j, j < i ∧ r.1[j]? = some k) := by
+  intro r
+  obtain ⟨h1, h2, h3, h4, h5, h6, _⟩ := specLabels_core shape data bshape bc hnd hlen
+  refine ⟨h1, h2, ?_, h4, h5, ?_, Consec.earlier r.1 1 h4⟩
+  · intro i j fi fj
+    rw [h3 i j fi fj, EqvGen.reflTransGen_symmGen, C03_edge_eq_linked shape data bshape bc hnd]
+  · intro k hk1 hk2
+    have hmem : r.2 ∈ r.1 := h6 (Int.le_trans hk1 hk2)
+    by_cases e : k = r.2
+    · rw [e]; exact hmem
+    · obtain ⟨i, hi⟩ := List.getElem?_of_mem hmem
+      obtain ⟨j, _, hj⟩ := Consec.earlier r.1 1 h4 i r.2 hi k hk1 (by omega)
+      exact List.mem_of_getElem? hj
+
+/-- **C03: the model IS the oracle.** For every rank, shape, image that fills its shape and element of the
+image's rank, the transliterated union–find model of the (repaired) `label` returns exactly what the oracle
+`specLabels` returns — labels and count. Hence the harness' comparison "real output = `specLabels`" is a
+comparison with the proved specification, and its comparison "real output = `labelModel`" is the same check.
+Proof: both satisfy the characterisation (`C03_label_zero_iff_background`, `C03_label_same_iff_linked`,
+`C03_label_numbering` / `C03_specLabels_sound`), and a first-appearance numbering with a given equality
+pattern is unique (`consec_unique`, `count_unique`). -/
+theorem C03_model_eq_specLabels (shape : List Nat) (data : List Int) (bshape : List Nat) (bc : Array Int)
+    (hnd : bshape.length = shape.length) (hlen : data.length = shapeSize shape) :
+    labelModel .constant shape data bshape bc = specLabels shape data bshape bc := by
+  obtain ⟨s1, s2, s3, s4, s5, s6, s7⟩ := specLabels_core shape data bshape bc hnd hlen
+  obtain ⟨m1, m4, m5, m6, _⟩ := C03_label_numbering .constant shape data bshape bc
+  have m2 := fun i hi => C03_label_zero_iff_background .constant shape data bshape bc i hi
+  have m3 := fun i j fi fj => labels_same_iff .constant shape data bshape bc i j fi fj
+  have hL : (labelModel .constant shape data bshape bc).1 = (specLabels shape data bshape bc).1 := by
+    apply consec_unique _ _ 1 (by rw [m1, s1]) m4 s4
+    · intro i j hi hj
+      rw [m1] at hi hj
+      by_cases fi : Fg data i
+      · by_cases fj : Fg data j
+        · rw [m3 i j fi fj, s3 i j fi fj]
+        · have zj : data.getD j 0 = 0 := by
+            by_contra hc; exact fj ⟨hj, hc⟩
+          have a1 := (m2 j hj).mpr zj
+          have a2 := (s2 j hj).mpr zj
+          have b1 := mt (m2 i hi).mp fi.2
+          have b2 := mt (s2 i hi).mp fi.2
+          rw [a1, a2]
+          exact ⟨fun h => absurd h b1, fun h => absurd h b2⟩
+      · have zi : data.getD i 0 = 0 := by
+          by_contra hc; exact fi ⟨hi, hc⟩
+        have a1 := (m2 i hi).mpr zi
+        have a2 := (s2 i hi).mpr zi
+        rw [a1, a2]
+        by_cases fj : Fg data j
+        · have b1 := mt (m2 j hj).mp fj.2
+          have b2 := mt (s2 j hj).mp fj.2
+          exact ⟨fun h => absurd h.symm b1, fun h => absurd h.symm b2⟩
+        · have zj : data.getD j 0 = 0 := by
+            by_contra hc; exact fj ⟨hj, hc⟩
+          rw [(m2 j hj).mpr zj, (s2 j hj).mpr zj]
+    · intro i hi h
+      rw [m1] at hi
+      have hm : (labelModel .constant shape data bshape bc).1.getD i 0 ∈ (labelModel .constant shape data bshape bc).1 := by
+        rw [List.getD_eq_getElem?_getD, List.getElem?_eq_getElem (by rw [m1]; exact hi)]
+        exact List.getElem_mem _
+      have hs : (specLabels shape data bshape bc).1.getD i 0 ∈ (specLabels shape data bshape bc).1 := by
+        rw [List.getD_eq_getElem?_getD, List.getElem?_eq_getElem (by rw [s1]; exact hi)]
+        exact List.getElem_mem _
+      have n1 := (m5 _ hm).1
+      have n2 := (s5 _ hs).1
+      rcases h with h | h
+      · have z : (labelModel .constant shape data bshape bc).1.getD i 0 = 0 := by omega
+        rw [z, (s2 i hi).mpr ((m2 i hi).mp z)]
+      · have z : (specLabels shape data bshape bc).1.getD i 0 = 0 := by omega
+        rw [z, (m2 i hi).mpr ((s2 i hi).mp z)]
+  have hc : (labelModel .constant shape data bshape bc).2 = (specLabels shape data bshape bc).2 := by
+    have hnn : 0 ≤ (labelModel .constant shape data bshape bc).2 := by
+      have := (renumGo_count (parents .constant shape data (offsets bshape bc)).toList [((-1 : Int), (0 : Int))] 1
+        (by intro v l h; have := (seenInv_init (-1)).lt v l h; omega)).1
+      unfold labelModel renumber
+      omega
+    apply count_unique (specLabels shape data bshape bc).1 _ _
+    · intro l hl; rw [← hL] at hl; exact (m5 l hl).2
+    · intro l hl; exact (s5 l hl).2
+    · intro h; rw [← hL]; exact m6 _ h (by omega)
+    · exact s6
+    · exact hnn
+    · exact s7
+  exact Prod.ext hL hc
+
+/-- **C03 ↔ F6 (the filter iterator).** The neighbour list the model of `label` uses at the `i`-th pixel of the
+scan — `offset k − shape/2` pushed through `fix_offset` per axis (`neighbours`, `offsets`) — is, entry by entry,
+what the transliterated `filter_iterator` mechanism (`init_filter_offsets` table over array regions,
+`init_filter_iterator` strides/backstrides, `iterate_both`, `retrieve`; `Model/FilterIter.lean`, whose walk the
+harness compares with the real `_filters.cpp` under op `f6`) retrieves after `i` steps for the footprint of the
+non-zero entries of the element: flagged entries are skipped, any other entry `off` reads the pixel at
+`position + off`. Any border mode, any rank, array and element shapes with entries ≥ 1 (element smaller than,
+equal to or larger than the image, odd or even). So the closed form is not an extra modelling assumption of C03:
+it is the F6 theorem instantiated. -/
+theorem C03_neighbours_are_filter_iterator_reads (m : Mode) (shape bshape : List Nat) (bc : Array Int)
+    (hlen : shape.length = bshape.length) (ha : ∀ a ∈ shape, 1 ≤ a) (hf : ∀ f ∈ bshape, 1 ≤ f)
+    (i : Nat) (hi : i < shapeSize shape) :
+    neighbours m shape (offsets bshape bc) (unravelI shape i) =
+      (List.range (offsets bshape bc).length).filterMap fun j =>
+        retrievedIndex shape (unravelI shape i)
+          (FilterIter.retrieve (FilterIter.mkFIter m shape bshape (fpOf bc))
+            (FilterIter.stateAfter (FilterIter.mkFIter m shape bshape (fpOf bc)) shape i) j) :=
+  neighbours_eq_retrieved m shape bshape bc hlen ha hf i hi
+
 /-! non-vacuity: a 3×4 image whose three scan-order fragments merge late (U shape) plus an isolated
     pixel; both hypotheses of the partition theorem are met and the model labels it as the spec does. -/
 example :
@@ -144,3 +279,26 @@ example :
   · unfold Fg; decide
   · unfold Fg; decide
   · decide +kernel
+
+/-! non-vacuity of the oracle theorems: the hypotheses (`bshape.length = shape.length`, the image fills its shape)
+    hold for the 3×4 example above, and model and oracle indeed agree there. -/
+example :
+    let data : List Int := [1, 0, 1, 0,
+                            1, 0, 1, 0,
+                            1, 1, 1, 1]
+    ([3, 3] : List Nat).length = ([3, 4] : List Nat).length ∧ data.length = shapeSize [3, 4] ∧
+    specLabels [3, 4] data [3, 3] #[0, 1, 0, 1, 1, 1, 0, 1, 0] =
+      ([1, 0, 1, 0, 1, 0, 1, 0, 1, 1, 1, 1], 1) := by
+  intro data
+  refine ⟨rfl, rfl, ?_⟩
+  decide +kernel
+
+/-! non-vacuity of the F6 tie: pixel (0,1) of a 1×2 image under the element `{(-1,-1), (0,-1)}` (3×3): the
+    mechanism flags the first entry (outside the image, constant mode) and reads pixel 0 through the second. -/
+example :
+    (List.range (offsets [3, 3] #[1, 0, 0, 1, 0, 0, 0, 0, 0]).length).filterMap (fun j =>
+        retrievedIndex [1, 2] (unravelI [1, 2] 1)
+          (FilterIter.retrieve (FilterIter.mkFIter .constant [1, 2] [3, 3] (fpOf #[1, 0, 0, 1, 0, 0, 0, 0, 0]))
+            (FilterIter.stateAfter (FilterIter.mkFIter .constant [1, 2] [3, 3] (fpOf #[1, 0, 0, 1, 0, 0, 0, 0, 0])) [1, 2] 1) j))
+      = [0] := by
+  decide +kernel
